@@ -150,7 +150,7 @@ impl MintBuilder {
                         if overwrite {
                             mint.0 = amount.0;
                         } else {
-                            mint.0 += amount.0;
+                            mint.0 = Self::checked_amount_sum(mint, amount)?.0;
                         }
                     }
                     _ => {}
@@ -174,7 +174,7 @@ impl MintBuilder {
                         if overwrite {
                             mint.0 = amount.0;
                         } else {
-                            mint.0 += amount.0;
+                            mint.0 = Self::checked_amount_sum(mint, amount)?.0;
                         }
                     }
                     _ => {}
@@ -182,6 +182,16 @@ impl MintBuilder {
             }
         }
         Ok(())
+    }
+
+    /// sum of two mint amounts; an error when it leaves the range of `Int` (-2^64..2^64-1), whose
+    /// CBOR form would silently truncate it
+    fn checked_amount_sum(current: &Int, amount: &Int) -> Result<Int, JsError> {
+        let sum = current.0 + amount.0;
+        if sum > u64::MAX as i128 || sum < -(u64::MAX as i128) - 1 {
+            return Err(JsError::from_str("Mint amount overflow"));
+        }
+        Ok(Int(sum))
     }
 
     fn validate_mint_witness(
